@@ -3,6 +3,7 @@ import MindsVerif.Lemmas.WalkRepl
 import MindsVerif.Lemmas.WalkTrace
 import MindsVerif.Lemmas.WalkSchemaOK
 import MindsVerif.Lemmas.WalkNoNone
+import MindsVerif.Lemmas.WalkPerm
 import MindsVerif.Gen.Schema
 /-!
 # C13 — the AST walker visits every table, expression and subquery once, in textual order
@@ -27,12 +28,12 @@ their kind, the order in which `to_string()` prints them, and the branch of the 
   configurations (`okTree Schema.schema t`).  What is missing for the full statement is exactly the
   list in `knownDevs`; each has a witness below (the model exhibits the deviation, by `decide`) and a
   reproduction on the real code in `known_findings.json`.
+* `C13_once` (permutation theorem): on an `okTree` the calls are a permutation of `reqTags` — every required node
+  exactly once.  `expected` looks through container slots (`Select.cte`), so a WITH clause no longer excludes a tree
+  from `okTree` by itself (only the visiting order does).  `C13_unchanged`: unconditional.
 * `C13_trace`, for every schema, tree and visitor: the log is a faithful trace of the visitor.
 * `C13_no_none_call` (every tree, every visitor, no hypothesis; via `phi13_clean`): the visitor is never called
   with `None`.  `C13_regress_*`: regression examples for the deviations repaired in the library.
-Not proved: that `expected` enumerates every required node exactly once is by construction of
-`expected` (one entry per child of each printed required slot; `nodeOK` demands that the printed
-required slots are duplicate-free and contain every occupied required slot), not a separate theorem.
 -/
 namespace MindsVerif.Props.C13
 open MindsVerif.Walk MindsVerif.Params MindsVerif.Gen
@@ -52,10 +53,31 @@ def C13_full (σ : Schema) : Prop := ∀ t : Node, C13_body σ t
 theorem C13_lifting (σ : Schema) (t : Node) (h : okTree σ t = true) : C13_body σ t := by
   refine ⟨?_, ?_⟩
   · intro S cb hcb st
-    have g := good_all σ cb hcb t h false false 0 st
-    exact ⟨g.2.2, g.2.1, g.1⟩
+    have hl : LeafOnly σ cb := by
+      intro st n a b pq x hx
+      rw [hcb] at hx; cases hx
+    have g := goodlog_all σ cb hl t h false false 0 st
+    have u := unchanged_all σ cb hcb t false false 0 st
+    exact ⟨g, u.2, u.1⟩
   · intro x r
     exact goodrep_all σ x r t h false false 0 ()
+
+/-- "every required node exactly once": on an `okTree` the calls of a visitor that only looks are a
+permutation of `reqTags σ t` — the node, the subtrees of its children in required slots and (looking
+through container children) their required children — each identity listed once per occurrence -/
+theorem C13_once (σ : Schema) (t : Node) (h : okTree σ t = true) {S : Type} (cb : Cb S)
+    (hcb : ∀ st n a b pq, (cb st n a b pq).1 = none) (st : S) :
+    ((walk σ cb t st).log.map Visit.tag).Perm ((reqTags σ t).map some) := by
+  have g := (C13_lifting σ t h).1 S cb hcb st
+  have : (walk σ cb t st).log.map Visit.tag = ((walk σ cb t st).log.map Visit.key).map (·.1) := by
+    simp [List.map_map, Function.comp_def, Visit.key]
+  rw [this, g.1]
+  exact expected_perm σ t h false false
+
+/-- … for every schema and tree, whatever the walker does: a visitor that only looks leaves the tree unchanged -/
+theorem C13_unchanged {S : Type} (σ : Schema) (cb : Cb S) (hcb : ∀ st n a b pq, (cb st n a b pq).1 = none)
+    (t : Node) (st : S) : (walk σ cb t st).repl = none ∧ (walk σ cb t st).self = t :=
+  unchanged_all σ cb hcb t false false 0 st
 
 /-- T13.1 in the form "Φ on the finite schema ⇒ the property for all trees" -/
 theorem C13_of_schemaOK (σ : Schema) (h : schemaOK σ = true) : C13_full σ :=
@@ -63,6 +85,20 @@ theorem C13_of_schemaOK (σ : Schema) (h : schemaOK σ = true) : C13_full σ :=
 
 /-- non-vacuity of `schemaOK`: a two-class schema (a binary operation over leaves) -/
 example : schemaOK [⟨[], [], []⟩, ⟨[.expr], [0], [⟨0, none, false, false, .inherit, .same, false⟩]⟩] = true := by decide
+
+/-- non-vacuity of the container clause of `okTree` (the probed `Select` always has its select list visited before
+the WITH bodies, so no probed tree with a WITH clause is `okTree`): class 1 holds a list of entries (container, looked
+through), class 2 is an entry with a name and a body, class 3 a leaf -/
+def σc : Schema := [⟨[], [], []⟩,
+  ⟨[.container, .target], [0, 1], [⟨0, some 1, false, false, .self, .same, false⟩, ⟨1, none, false, true, .self, .same, false⟩]⟩,
+  ⟨[.name, .query], [0, 1], []⟩, ⟨[], [], []⟩]
+def tc : Node := .mk 1 0 0 [.mk 2 0 1 [.mk 3 0 2 [], .mk 3 1 3 []], .mk 3 1 4 []]
+example : okTree σc tc = true
+    ∧ (walk σc cbLog tc ()).log.map Visit.tag = [some 0, some 3, some 4]
+    ∧ (expected σc tc false false).map (·.1) = [some 0, some 3, some 4]
+    ∧ reqTags σc tc = [0, 3, 4]
+    ∧ (walk σc (cbAt 3 (.mk 0 0 9 [])) tc ()).self.flat
+        = (Node.mk 1 0 0 [.mk 2 0 1 [.mk 3 0 2 [], .mk 0 1 9 []], .mk 3 1 4 []]).flat := by decide
 
 /-- for every schema, tree and visitor the log is a faithful trace of the visitor -/
 theorem C13_trace {S : Type} (σ : Schema) (cb : Cb S) (t : Node) (st : S) :
@@ -84,7 +120,6 @@ def knownDevs : List (String × String × Dev) :=
    ("Join", "right", .order),
    ("Select", "from_table", .order),
    ("Select", "targets", .order),
-   ("Select", "cte", .via),                          -- the entry is skipped, its body is traversed and assigned back
    ("Update", "where", .order)]
 
 /-- Φ13: the probed schema deviates exactly at the listed triples -/
@@ -137,12 +172,13 @@ def wUpdate : Node := .mk (cid "Update") 0 0
 theorem C13_witness_update : tagsOf wUpdate = [some 0, some 1, some 3, some 2]
     ∧ expTags wUpdate = [some 0, some 1, some 2, some 3] := by decide +kernel
 
-/-- `WITH c AS (q) SELECT x`: the select list is visited before the WITH body, and the entry itself is skipped -/
+/-- `WITH c AS (q) SELECT x`: the select list is visited before the WITH body (the entry is looked through) -/
 def wCte : Node := .mk (cid "Select") 0 0
   [.mk (cid "CommonTableExpression") (sid "Select" "cte") 1
       [leaf "CommonTableExpression" "name" 2, leaf "CommonTableExpression" "query" 3],
    leaf "Select" "targets" 4]
-theorem C13_witness_cte : tagsOf wCte = [some 0, some 4, some 3] := by decide +kernel
+theorem C13_witness_cte : tagsOf wCte = [some 0, some 4, some 3] ∧ expTags wCte = [some 0, some 3, some 4] := by
+  decide +kernel
 
 /-! ### regression examples for deviations repaired in the library -/
 
